@@ -256,6 +256,11 @@ var c09Random = probe.Define("C09", "exponents", func(t *rapid.T) c09RandIn {
 	case 0:
 		in.Mode = "range"
 		in.Stream = gen.Fill(t, "stream", rapid.IntRange(0, 300).Draw(t, "len"))
+		if rapid.IntRange(0, 3).Draw(t, "extreme") == 3 {
+			// candidates at the upper end of the range: 200-256 octets of 0xff first
+			k := rapid.SampledFrom([]int{200, 239, 240, 241, 255, 256}).Draw(t, "ones")
+			in.Stream = append(bytes.Repeat([]byte{0xff}, k), in.Stream...)
+		}
 	case 1:
 		in.Mode = "skip-small"
 		// first candidate(s) <= 2^128: zero or tiny 256-octet chunks, then drawn octets
@@ -492,6 +497,19 @@ func TestC09(t *testing.T) {
 				top, new(big.Int).Sub(top, big.NewInt(1)), other, new(big.Int).Sub(other, big.NewInt(1)), new(big.Int).Add(other, big.NewInt(1))} {
 				c09Table.Eval(c, c09In{Group: g, X: x.Bytes(), X2: big.NewInt(77).Bytes(), Y: new(big.Int).Add(P, big.NewInt(5)).Bytes()})
 			}
+			// small exponents around the sizes of the two moduli (2^x is just below / above p), and peer values and exponents
+			// whose low 64 or 32 bits are a small number (0, 1, 2) while the number itself is large
+			for _, xv := range []int64{1022, 1023, 1024, 1025, 1535, 2045, 2046, 2047, 2048, 2049, 4096} {
+				c09Table.Eval(c, c09In{Group: g, X: big.NewInt(xv).Bytes(), X2: big.NewInt(xv + 1).Bytes(), Y: big.NewInt(3).Bytes()})
+			}
+			for _, sh := range []uint{32, 64, 128, 1000, 1023, 2047} {
+				for _, low := range []int64{0, 1, 2, 3} {
+					v := new(big.Int).Lsh(big.NewInt(1), sh)
+					v.Add(v, big.NewInt(low))
+					c09Table.Eval(c, c09In{Group: g, X: big.NewInt(77).Bytes(), X2: v.Bytes(), Y: v.Bytes()})
+					c09Table.Eval(c, c09In{Group: g, X: v.Bytes(), X2: big.NewInt(5).Bytes(), Y: new(big.Int).Add(P, v).Bytes()})
+				}
+			}
 			// exponents that are multiples of the group order p-1 (longer than the modulus for group 2) against peer values that
 			// are multiples of p (0, p, 2p, 3p: the only values for which reducing the exponent modulo p-1 changes the result)
 			pm1 := new(big.Int).Sub(P, big.NewInt(1))
@@ -512,6 +530,9 @@ func TestC09(t *testing.T) {
 				c09Table.Eval(c, c09In{Group: g, X: x.Bytes(), X2: big.NewInt(2).Bytes(), Y: new(big.Int).Set(P).Bytes()})
 				c09Table.Eval(c, c09In{Group: g, X: x.Bytes(), X2: big.NewInt(2).Bytes(), Y: []byte{0}})
 			}
+		}
+		for _, k := range []int{239, 240, 241, 255, 256, 257, 512} {
+			c09Random.Eval(c, c09RandIn{Group: 0, Mode: "range", Stream: append(bytes.Repeat([]byte{0xff}, k), 1, 2, 3, 4, 5, 6, 7, 8, 9, 10, 11, 12, 13, 14, 15, 16, 17, 18, 19, 20, 21, 22, 23, 24, 25, 26, 27, 28, 29, 30, 31, 32, 33, 34, 35, 36, 37, 38, 39, 40)})
 		}
 		// fault enumeration: every read of the fault-free run, both groups
 		for g := 0; g < 2; g++ {
